@@ -205,12 +205,32 @@ def _returns_constant_ctor(F, path):
     return all(rv["k"] == "agg" and rv.get("adt") == EXPR and rv.get("variant") not in NONCONST_VARIANTS for rv in defs)
 
 
+def _tir_helpers(t, callee):
+    return callee["crate"] == "tx3_tir" and not callee.get("impl_trait") and not callee.get("trait_default") and len(callee["blocks"]) <= 150
+
+
+_SETB = {}
+
+
+def _set_builders(F):
+    """plain tx3_tir functions whose body builds a Param::Set (constructor helpers)"""
+    if id(F) not in _SETB:
+        out = set()
+        for p, g in F.fns.items():
+            if g["crate"] == "tx3_tir" and not g.get("impl_trait") and not g.get("derived") and \
+                    any(s["rv"]["k"] == "agg" and s["rv"].get("adt") == PARAM and s["rv"].get("variant") == "Set" for _, _, s in mir.stmts(g)):
+                out.add(p)
+        _SETB[id(F)] = out
+    return _SETB[id(F)]
+
+
 def s_kind(F, res):
     kinds = {"apply_args": "ExpectValue", "apply_inputs": "ExpectInput", "apply_fees": "ExpectFees"}
     adt = F.adt(PARAM)
     discr = {v["name"]: v["discr"] for v in adt["variants"]}
     for m, var in kinds.items():
-        f = F.fn("<%s as %s>::%s" % (PARAM, APPLY, m))
+        # helper functions that build the substituted value (`Param::Set(..)`) are inlined, wherever in the crate they live
+        f = mir.inline_calls(F, F.fn("<%s as %s>::%s" % (PARAM, APPLY, m)), want=_tir_helpers, depth=2)
         arms = e3.variant_arms(f)
         key = "%s|Set under %s" % (f["path"], var)
         w = where(f)
@@ -222,6 +242,17 @@ def s_kind(F, res):
         target = tmap.get(discr[var])
         shared = target is None or list(tmap.values()).count(target) > 1 or target == other
         sets = [(bi, s) for bi, si, s in mir.stmts(f) if s["rv"]["k"] == "agg" and s["rv"].get("adt") == PARAM and s["rv"]["variant"] == "Set"]
+        # a constructor function of Param::Set handed over as a function value (`opt.map_or(unchanged, Self::set_from_arg)`)
+        # builds the Set where it is handed over
+        builders = _set_builders(F)
+        for bi, t in mir.calls(f):
+            refs = set(t.get("fnrefs") or ())
+            for a in t["args"]:
+                c_ = mir.op_const(a)
+                if c_ and "fn" in c_:
+                    refs.add(c_.get("fn_resolved") or c_["fn"])
+            if refs & builders:
+                sets.append((bi, {"line": t["line"], "rv": {"k": "fnref"}}))
         if not sets:
             res.add([finding("S-KIND", key, w, "Param::%s never produces Param::Set: %s parameters are never substituted" % (m, var))])
             continue
